@@ -151,9 +151,9 @@ func (s *c14Scenario) serial(first int) (string, [2]int) {
 }
 
 func checkC14(c *Ctx) {
-	c.Rule = "controlled two-activity scheduler: one API request and one poll step (1-3 board messages) run in goroutines on the same real node service; every State/Storage call first asks for the baton. All schedules with at most 2 (quick) / 3 (thorough) pre-emptions are enumerated per (request kind, message kind) scenario, each replayed from a snapshot; the final logical state (operation pool, tombstones, round projections, signature stores, offset, messages posted; ids/times masked) must equal the final state of one of the two serial orders. Thorough adds a free-running soak of the same pairs on real LevelDB with the real Poll() under the Go race detector. distinct = distinct executed interleavings (grant traces)"
+	c.Rule = "controlled two-activity scheduler: one API request and one poll step (1-3 board messages) run in goroutines on the same real node service; every State/Storage call first asks for the baton. All schedules with at most 2 (quick) / 3 (thorough) pre-emptions are enumerated per (request kind, message kind) scenario, each replayed from a snapshot; the final logical state (operation pool, tombstones, round projections, signature stores, offset, messages posted; ids/times masked) must equal the final state of one of the two serial orders. Thorough adds a free-running soak of the same pairs on real LevelDB with the real Poll() under the Go race detector. A schedule after which every unfinished activity is parked on a mutex for good (wait states from the goroutine dump, no scheduling point reached on 12 consecutive samples) is a violation (deadlock). distinct = distinct executed interleavings (grant traces)"
 	c.Assumptions = []string{"MemState (one lock per call, like LevelDBState.Get/Set) for the enumerated schedules; LevelDBState itself only in the race soak", "scheduling granularity = State/Storage interface calls"}
-	builders := []func(seed uint64) (*c14Scenario, error){scnSubmitVsProposal, scnApproveVsOtherRound, scnReinitFinishVsOtherRound, scnResetVsPoll, scnSaveOffsetVsPoll, scnSubmitVsSameRound, scnSubmitVsSignatures, scnReinitFinishVsSameRoundProposal, scnReinitFinishVsOtherReinit}
+	builders := []func(seed uint64) (*c14Scenario, error){scnSubmitVsProposal, scnApproveVsOtherRound, scnReinitFinishVsOtherRound, scnResetVsPoll, scnSaveOffsetVsPoll, scnSubmitVsSameRound, scnSubmitVsSignatures, scnReinitFinishVsSameRoundProposal, scnReinitFinishVsOtherReinit, scnSecondApproveVsOtherRound, scnListOperationsVsPoll}
 	maxPre := c.Pick(2, 3)
 	Parallel(len(builders), 8, func(bi int) {
 		s, err := builders[bi](c.Seed*1000 + uint64(bi))
@@ -338,6 +338,67 @@ func scnApproveVsOtherRound(seed uint64) (*c14Scenario, error) {
 	id := ops[0].ID
 	s := &c14Scenario{Name: "approve-participation||poll-other-rounds-proposal", W: w, V: v, Snap: v.Mem.Snapshot(), Board: w.Board.Len(), Closer: w.Close}
 	s.API = func() error { return viaREST(v).Approve(id) }
+	s.Poll = func() error { _, err := v.PollStep(0); return err }
+	return s, nil
+}
+
+// threeInvitations: the node holds two pending invitations (rounds R1, R2); the first one is approved (and
+// thereby retired) before the scenario starts, the proposal of a third round waits on the board.
+func threeInvitations(seed uint64) (*world.World, *world.Node, string, error) {
+	w, err := world.NewWorld(world.Options{N: 2, T: 2, Seed: seed})
+	if err != nil {
+		return nil, nil, "", err
+	}
+	v := w.Nodes[1]
+	for k := 0; k < 2; k++ {
+		if _, err := w.StartDKG(0, 2, now().Add(time.Duration(k)*time.Hour)); err != nil {
+			w.Close()
+			return nil, nil, "", err
+		}
+		if _, err := v.PollStep(0); err != nil {
+			w.Close()
+			return nil, nil, "", err
+		}
+	}
+	ops := w.PendingOps(v)
+	if len(ops) != 2 {
+		w.Close()
+		return nil, nil, "", fmt.Errorf("expected two invitations, have %d", len(ops))
+	}
+	sort.Slice(ops, func(i, j int) bool { return ops[i].ID < ops[j].ID })
+	if err := viaREST(v).Approve(ops[0].ID); err != nil {
+		w.Close()
+		return nil, nil, "", err
+	}
+	if _, err := w.StartDKG(0, 2, now().Add(5*time.Hour)); err != nil {
+		w.Close()
+		return nil, nil, "", err
+	}
+	return w, v, ops[1].ID, nil
+}
+
+// approve the second of two invitations (the first one was approved and retired just before) while the
+// poller handles the proposal of a third round
+func scnSecondApproveVsOtherRound(seed uint64) (*c14Scenario, error) {
+	w, v, id, err := threeInvitations(seed)
+	if err != nil {
+		return nil, err
+	}
+	s := &c14Scenario{Name: "approve-after-an-earlier-approval||poll-other-rounds-proposal", W: w, V: v, Snap: v.Mem.Snapshot(), Board: w.Board.Len(), Closer: w.Close}
+	s.API = func() error { return viaREST(v).Approve(id) }
+	s.Poll = func() error { _, err := v.PollStep(0); return err }
+	return s, nil
+}
+
+// a read-only request (the operator's client lists the pending operations once a second) right after an
+// operation was retired, while the poller handles a proposal that creates a new one
+func scnListOperationsVsPoll(seed uint64) (*c14Scenario, error) {
+	w, v, _, err := threeInvitations(seed)
+	if err != nil {
+		return nil, err
+	}
+	s := &c14Scenario{Name: "list-operations||poll-other-rounds-proposal", W: w, V: v, Snap: v.Mem.Snapshot(), Board: w.Board.Len(), Closer: w.Close}
+	s.API = func() error { _, err := viaREST(v).Operations(); return err }
 	s.Poll = func() error { _, err := v.PollStep(0); return err }
 	return s, nil
 }
